@@ -94,7 +94,13 @@ URL_IN_HTML_BINARY_RE = re.compile(URL_IN_HTML_BINARY, re.I)
 QUERY_VALUE_IN_URL_TEMPLATE = r"(?:^|[?&])(%s)=([^&]+)"
 QUERY_VALUE_TEMPLATE = r"%s=([^&]+)"
 
-DOMAIN_TEMPLATE = r"^(?:https?:)?(?://)?(?:\S+(?::\S*)?@)?%s(?:[:/#]|\s*$)"
+# NOTE: userinfo cannot run past the end of the netloc, and the host is followed
+# by an optional port, then by the path, query, fragment or the end of the url
+DOMAIN_TEMPLATE = r"^\s*(?:https?:)?(?://)?(?:[^\s/?#]*@)?%s\.?(?::\d*)?(?:[/?#]|\s*$)"
+
+# NOTE: a subdomain label cannot contain a delimiter of the url
+SUBDOMAINS = r"(?:[^\s./?#@:]+\.)*"
+LABEL = r"[^\s./?#@:]+"
 
 SCRIPT_TAG = r"<script\b[^<]*(?:(?!<\/script>)<[^<]*)*<\/script>"
 SCRIPT_TAG_BINARY = SCRIPT_TAG.encode()
